@@ -156,7 +156,7 @@ def ffRaw (opFull : String) (args : List String) : Option String := do
                    else Gen.FF.mulByConstant x0 x1 x2 x3 c))
     | _ => none
   | "inverse", [x] =>
-    -- Montgomery inverse: (x·R)⁻¹·R² ; value-level (the binary GCD loop is modelled in I3.Model.FFInverse)
+    -- Montgomery inverse: (x·R)⁻¹·R² ; value-level
     let xm := val4 (← parseLimbs? x)
     let R := W ^ 4
     pure (show4 (limbs4 (invMod xm q * (R % q) % q * (R % q) % q)))
